@@ -558,7 +558,127 @@ def job_backend(cfg):
     return res
 
 
+# ------------------------------------------------------------------------------------------------ re-entered conditions on one simulation
+RESOLVE = {
+    # two rounds with the SAME number of Dirichlet conditions on DIFFERENT dofs (and one where only the dofs of one condition move)
+    "moved": ([("D", [0], ["x", "y"], "const"), ("D", [3], ["y"], "const"), ("N", [2], ["x"], "const")],
+              [("D", [1], ["x", "y"], "const"), ("D", [4], ["x"], "const"), ("N", [2], ["y"], "const")]),
+    "swapped": ([("D", [0, 3], ["x"], "array"), ("D", [0], ["y"], "const"), ("N", [2], ["x", "y"], "const")],
+                [("D", [1, 3], ["y"], "array"), ("D", [1], ["x"], "const"), ("N", [4], ["x", "y"], "const")]),
+}
+
+
+def job_resolve(cfg):
+    """solve; Bc_Init(); enter other conditions (same count, other dofs); solve again on the SAME simulation object: the second solution
+    holds its constraints, satisfies its equations and equals the solution of a fresh simulation given the second conditions only"""
+    from EasyFEA.Simulations import Solvers
+
+    res = JobResult(cfg)
+    c = new_context()
+    facade.install()
+    mesh, simu = build(cfg)
+    first, second = RESOLVE[cfg["resolve"]]
+    key = f"{cfg['sim']} resolve {cfg['resolve']}"
+    pt = simu.problemType
+    dof_n = simu.Get_dof_n(pt)
+    simu.Get_K_C_M_F()
+    res.functions |= {"_Simu.Bc_Init", "_Simu.add_dirichlet", "_Simu.add_neumann", "_Simu.Bc_dofs_known_unknown", "_Simu._Solver_Apply_Dirichlet", "_Simu._Solver_Apply_Neumann", "Solvers.Solve_simu", "Solvers.__Solver_1"}
+
+    def run_float(env):
+        full = {kk: float(v) for kk, v in {**c.shadow, **(env or {})}.items()}
+        m2, s2 = build(cfg)
+        s2.Get_K_C_M_F()
+        out = []
+        for rnd_, lay in enumerate((first, second)):
+            s2.Bc_Init()
+            exp = _apply_concrete(s2, lay, full, c, f"r{rnd_}")
+            u2 = np.asarray(Solvers.Solve_simu(s2, pt)[0]).reshape(-1)
+            F2 = np.asarray(s2.Bc_vector_Neumann(pt).toarray()).reshape(-1) if hasattr(s2.Bc_vector_Neumann(pt), "toarray") else np.asarray(s2.Bc_vector_Neumann(pt)).reshape(-1)
+            K2 = np.asarray(s2.Get_K_C_M_F()[0].toarray())
+            r2 = K2 @ u2 - F2
+            free = [d for d in range(len(u2)) if d not in exp]
+            out.append((max(abs(u2[d] - v) for d, v in exp.items()), float(np.abs(r2[free]).max() / np.abs(K2).max())))
+        return out
+
+    def replay(env):
+        out = run_float(env)
+        bad = any(a > 1e-9 or b > 1e-9 for a, b in out)
+        return bad, {"round_1 (constraint error, relative residual on free dofs)": out[0], "round_2": out[1]}
+
+    mark = c.mark()
+    sols = []
+    exps = []
+    with facade.symbolic(), stubs.ideal_linear_solver():
+        for rnd_, lay in enumerate((first, second)):
+            simu.Bc_Init()
+            exps.append(apply_layout(simu, lay, tag=f"r{rnd_}"))
+            u, _ = Solvers.Solve_simu(simu, pt)
+            sols.append(np.asarray(u, dtype=object).copy())
+            if rnd_ == 1:
+                Fvec = np.asarray(simu.Bc_vector_Neumann(pt), dtype=object).reshape(-1) if not hasattr(simu.Bc_vector_Neumann(pt), "a") else simu.Bc_vector_Neumann(pt).a.reshape(-1)
+        # fresh simulation, second conditions only, same symbols
+        mesh_b, simu_b = build(cfg)
+        simu_b.Get_K_C_M_F()
+        _reapply(simu_b, simu)
+        ub, _ = Solvers.Solve_simu(simu_b, pt)
+    pcs = c.pc_since(mark)
+    res.paths, res.path_conditions = 1, len(pcs)
+    res.symbols = len(c.input_vids())
+    K = simu.Get_K_C_M_F()[0]
+    Kd = np.asarray(K.toarray(), dtype=float)
+    kmax = Fraction(float(np.abs(Kd).max()))
+    u = sols[1]
+    for d, want in sorted(exps[1].items()):
+        res.record(f"{key} second solve: u[{d}] = entered value", prove_abs_le(as_sym(u[d]) - want, 0, pcs, key), replay, key=f"{key} constrained dof (second round)",
+                   sample=None if d != sorted(exps[1])[0] else {"config": key, "obligation": "after solve; Bc_Init(); other conditions (same count, other dofs); solve: every constrained dof holds its entered value, for all values"})
+    r = facade._matmul(np.asarray(Kd, dtype=object), np.asarray(u, dtype=object)) - Fvec
+    for d in range(mesh.Nn * dof_n):
+        if d in exps[1]:
+            continue
+        res.record(f"{key} second solve: (K u - F)[{d}] = 0", prove_abs_le(r[d], TOL * kmax, pcs, key), replay, key=f"{key} free-dof equilibrium (second round)")
+        res.record(f"{key} second solve = fresh simulation at dof {d}", prove_abs_le(as_sym(u[d]) - as_sym(ub[d]), TOL, pcs, key), replay, key=f"{key} second round = fresh simulation")
+    d0 = sorted(exps[1])[0]
+    o = prove_abs_le(as_sym(u[d0]) - exps[1][d0] * 2, 0, pcs, "twin")
+    res.twin(f"{key} twin", o.status == "cex")
+    res.stubs |= facade.USED_STUBS
+    return res
+
+
+def _apply_concrete(simu, layout, full, c, tag):
+    """the same conditions with the concrete values of the symbols named as apply_layout names them"""
+    byname = {c.name(v): full[v] for v in full if v < len(c.names)}
+    pt = simu.problemType
+    unknowns_all = simu.Get_unknowns(pt)
+    dof_n = simu.Get_dof_n(pt)
+    expected = {}
+    k = 0
+    for kind, nodes, unknowns, vk in layout:
+        nodes = np.asarray(nodes, dtype=int)
+        vals, per_node = [], []
+        for u in unknowns:
+            k += 1
+            if vk == "const":
+                v = byname[f"{tag}v{k}"]
+                vals.append(v)
+                per_node.append([v] * len(nodes))
+            else:
+                arr = np.array([byname[f"{tag}a{k}_[{i}]"] for i in range(len(nodes))])
+                vals.append(arr)
+                per_node.append(list(arr))
+        if kind == "D":
+            simu.add_dirichlet(nodes, vals, unknowns)
+            for ui, u in enumerate(unknowns):
+                for ni, n in enumerate(nodes):
+                    d = int(n) * dof_n + unknowns_all.index(u)
+                    expected[d] = expected.get(d, 0) + per_node[ui][ni]
+        else:
+            simu.add_neumann(nodes, vals, unknowns)
+    return expected
+
+
 def job(cfg):
+    if cfg.get("resolve"):
+        return job_resolve(cfg)
     if cfg.get("backend"):
         return job_backend(cfg)
     return job_connection(cfg) if cfg.get("connection") else job_layout(cfg)
@@ -581,6 +701,8 @@ def main():
     configs.append({"sim": "nonsym", "layout": "single", "newton": True})
     configs.append({"sim": "elastic", "layout": "duplicated", "newton": True, "orphan": True})
     configs.append({"connection": True})
+    for rs in RESOLVE:
+        configs.append({"sim": "elastic", "resolve": rs})
     for sv in ("scipy", "cg", "bicg", "gmres", "lgmres", "lsq_linear"):
         configs.append({"backend": True, "solver": sv})
     results = harness.run_jobs(job, configs)
